@@ -114,6 +114,52 @@ def gen_coord(rng, c, ties=True):
     return c[-1] + h1 * rng.choice([1.5, 2.0, 3.25]), k
 
 
+NEAR_KINDS = [(1e-4, 1.0), (1e-6, 1.0), (1e-9, 1.0), (None, 1e-3), (None, 1e-6), (None, 1e-9), (None, 1e6),
+              (1e-6, 1e-6), (1e-4, 1e-9), (1e-9, 1e6), (1e-6, 1e-3)]
+
+
+def gen_cvec_near(rng, n, eps, scale):
+    """Coordinate vectors that an implementation must NOT mistake for uniform ones: 'almost uniform' (cell
+    sizes h*(1 + eps*u), u in [-1, 1], eps in 1e-4 .. 1e-9) and/or on a small / large length scale (clearly
+    non-uniform cells times 1e-3 .. 1e-9 or 1e+6)."""
+    start = rng.randint(-8, 8) * 0.25 * scale
+    h = rng.choice([0.5, 1.0, 2.0]) * scale
+    c = [start]
+    for _ in range(n - 1):
+        if eps is None:
+            c.append(c[-1] + rng.choice([0.5, 1.0, 2.0, 0.25]) * scale)
+        else:
+            c.append(c[-1] + h * (1.0 + eps * rng.uniform(-1.0, 1.0)))
+    assert all(a < b for a, b in zip(c, c[1:]))
+    return c
+
+
+def gen_coord_near(rng, c, eps):
+    """Evaluation coordinate for such a vector: a node, next to a cell midpoint (offset far above float
+    rounding but below the perturbation of the nodes; exact ties excluded), next to a cell edge, a generic
+    interior point, or just outside."""
+    n = len(c)
+    if n == 1:
+        return c[0], 'node'
+    delta = 1e-3 if eps is None else eps / 8
+    k = rng.choice(['node', 'near-mid', 'near-mid', 'near-edge', 'inside', 'lo1', 'hi1'])
+    j = rng.randrange(n - 1)
+    hj = c[j + 1] - c[j]
+    sgn = rng.choice([-1.0, 1.0])
+    if k == 'node':
+        return c[rng.randrange(n)], k
+    if k == 'near-mid':
+        return (c[j] + c[j + 1]) / 2 + sgn * delta * hj * rng.choice([1.0, 3.0]), k
+    if k == 'near-edge':
+        jj = rng.randrange(n)
+        return c[jj] + sgn * delta * hj, k
+    if k == 'inside':
+        return c[j] + hj * rng.choice([1, 2, 3, 5, 6, 7, 9, 11, 13, 15]) / 16.0, k
+    if k == 'lo1':
+        return c[0] - (c[1] - c[0]) * rng.choice([0.25, 0.375, 0.75]), k
+    return c[-1] + (c[-1] - c[-2]) * rng.choice([0.25, 0.375, 0.75]), k
+
+
 DTYPES = ['float64', 'float64', 'float64', 'float32', 'complex128', 'int64', 'str']
 
 LAYOUTS = ['C', 'F', 'transposed', 'strided', 'negstride']
@@ -279,7 +325,16 @@ def interp_cases(rng, tier, variants):
         if d > 1 and rng.random() < 0.6:
             shape = rng.sample(range(2, maxn + 1), d)          # pairwise distinct axis lengths
         layout = 'C' if d == 1 else rng.choice(LAYOUTS)
-        cvs = [gen_cvec(rng, n, dyadic) for n in shape]
+        near = None
+        if dtype != 'float32' and rng.random() < 0.25:
+            near = rng.choice(NEAR_KINDS)              # almost-uniform and/or rescaled coordinate vectors
+            dyadic = False
+            cvs = [gen_cvec_near(rng, n, *near) if n > 1 else [rng.randint(-8, 8) * 0.25 * near[1]] for n in shape]
+        else:
+            cvs = [gen_cvec(rng, n, dyadic) for n in shape]
+
+        def coord(c):
+            return gen_coord_near(rng, c, near[0]) if near else gen_coord(rng, c, dyadic)
         kind = rng.choice(['nearest', 'linear', 'per_axis', 'per_axis'])
         if dtype in ('int64', 'str') and rng.random() < 0.7:
             kind = 'nearest'      # the only factory defined for non-floating values
@@ -297,18 +352,18 @@ def interp_cases(rng, tier, variants):
         if conv == 'mesh':
             for c in cvs:
                 npt = rng.choice([1, 2, 2, 3, 4])
-                xs = [gen_coord(rng, c, dyadic) for _ in range(npt)]
+                xs = [coord(c) for _ in range(npt)]
                 mesh.append([x for x, _ in xs])
                 branches.append([b for _, b in xs])
             if d >= 2 and rng.random() < 0.85 and len(mesh[0]) == 1:
                 # most of the time avoid the recorded first-axis-singleton defect
-                x, b_ = gen_coord(rng, cvs[0], dyadic)
+                x, b_ = coord(cvs[0])
                 mesh[0].append(x)
                 branches[0].append(b_)
         else:
             npt = 1 if conv == 'single' else rng.choice([1, 2, 3, 5])
             for _ in range(npt):
-                p = [gen_coord(rng, c, dyadic) for c in cvs]
+                p = [coord(c) for c in cvs]
                 pts.append([x for x, _ in p])
                 branches.append([b for _, b in p])
         use_out = conv != 'single' and rng.random() < 0.25
@@ -326,7 +381,7 @@ def interp_cases(rng, tier, variants):
         out, summ = run_interp(kind, schemes, cvs, dtype, vre, vim, conv, pts, mesh, use_out, layout, out_layout)
         term = case_term(kind, schemes, cvs, dtype, vre, vim, conv, pts, mesh, variants, out, outarg)
         desc = {'kind': kind, 'schemes': schemes, 'cvs': cvs, 'dtype': dtype, 'values': vre, 'imag': vim,
-                'layout': layout, 'out_layout': out_layout, 'conv': conv, 'points': pts, 'mesh': mesh, 'out_arg': use_out, 'branches': branches,
+                'layout': layout, 'out_layout': out_layout, 'near_uniform_eps_scale': near, 'conv': conv, 'points': pts, 'mesh': mesh, 'out_arg': use_out, 'branches': branches,
                 'impl': summ if isinstance(summ, str) else 'values'}
         key = (kind, tuple(schemes), str(cvs), dtype, tuple(vre), tuple(vim), conv, str(pts), str(mesh), use_out, layout, out_layout)
         cs.add(term, desc, key if len(set(vre)) > 1 else None)
@@ -498,6 +553,15 @@ def sample(space, f, mode, out_layout='C'):
 exec(SAMPLE_SRC)
 
 
+def _finite_or_empty(arr):
+    """Non-finite outputs (e.g. an out= array that kept its NaN prefill) have no rational literal: report
+    them as a failing case (empty output list) instead of crashing the harness."""
+    a = np.asarray(arr)
+    if a.dtype.kind in 'fc' and not np.all(np.isfinite(a)):
+        return np.zeros(0, dtype=a.dtype), 'non-finite output (NaN prefill of out= survived?)'
+    return a, None
+
+
 def sampling_cases(rng, tier):
     cs = C.CaseSet('sampling', ['C15.Syntax', 'C15.Model', 'C15.Call', 'C15.Corr'], 'scheck', 'scase')
     n_cases = 360 if tier == 'quick' else 2400
@@ -540,6 +604,8 @@ def sampling_cases(rng, tier):
             except Exception as e:      # an exception is a failing case (empty output), not a harness crash
                 arr, err = np.zeros(0, dtype=dtype), '%s: %s' % (type(e).__name__, str(e)[:200])
         cvs = [c.tolist() for c in sp.grid.coord_vectors]
+        arr, err2 = _finite_or_empty(arr)
+        err = err or err2
         flat = np.asarray(arr).ravel()
         term = ('{| s_cvs := %s; s_re := %s; s_im := %s; s_cplx := %s; s_out_re := %s; s_out_im := %s |}'
                 % (C.qss(cvs), ex_re.coq(), ex_im.coq(), C.b(cplx),
@@ -633,7 +699,7 @@ def tensor_sampling_cases(rng, tier):
                 arr, err = None, '%s: %s' % (type(e).__name__, str(e)[:200])
         cvs = [c.tolist() for c in sp.grid.coord_vectors]
         for j, e in enumerate(comps):
-            flat = np.zeros(0) if arr is None else np.asarray(arr[j]).ravel()
+            flat = np.zeros(0) if arr is None else _finite_or_empty(arr[j])[0].ravel()
             term = ('{| s_cvs := %s; s_re := %s; s_im := FConst 0; s_cplx := false; s_out_re := %s; s_out_im := [] |}'
                     % (C.qss(cvs), e.coq(), C.qs([float(v) for v in flat.tolist()])))
             desc = {'family': 'tensor', 'form': form, 'mode': mode, 'inplace': inplace, 'out_layout': out_layout,
@@ -773,6 +839,7 @@ def history_cases(rng, tier):
             except Exception as e:
                 results, err = [[] for _ in coq], '%s: %s' % (type(e).__name__, str(e)[:200])
         for k, ((cvs, ex_re, ex_im, cplx), vals) in enumerate(zip(coq, results)):
+            vals = [] if any(v != v or abs(v) == float('inf') for v in vals) else vals
             term = ('{| s_cvs := %s; s_re := %s; s_im := %s; s_cplx := %s; s_out_re := %s; s_out_im := %s |}'
                     % (C.qss(cvs), ex_re.coq(), ex_im.coq(), C.b(cplx), C.qs([v.real for v in vals]),
                        C.qs([v.imag for v in vals]) if cplx else '[]'))
@@ -846,7 +913,7 @@ def resample_cases(rng, tier, variants):
         mesh = [c.tolist() for c in ran.grid.coord_vectors]
         term = ('{| r_cvs := %s; r_f := %s; r_ss := %s; r_mesh := %s; r_out := %s |}'
                 % (C.qss(cvs), ex.coq(), C.lst([SCH[s] for s in schemes]), C.qss(mesh),
-                   C.qs(np.asarray(y).ravel().tolist())))
+                   C.qs(_finite_or_empty(np.asarray(y))[0].ravel().tolist())))
         cs.add(term, {'op': 'Resampling', 'domain': [lo, hi, shape], 'range_shape': shape2, 'interp': interp,
                       'callable': ex.src(True), 'out_arg': use_out, 'schemes': schemes, 'family': 'resample',
                       'order': order},
@@ -868,7 +935,7 @@ def resample_cases(rng, tier, variants):
         except Exception:
             r = np.zeros(0)
         pts = (dom.points() + np.stack([dk.ravel() for dk in disp], axis=1)).tolist()
-        out = 'OVals %s []' % C.qs(np.asarray(r).ravel().tolist())
+        out = 'OVals %s []' % C.qs(_finite_or_empty(np.asarray(r))[0].ravel().tolist())
         term2 = case_term('per_axis', schemes, cvs, 'float64', vals, [], 'array', pts, [], variants, out)
         cs2.add(term2, {'op': 'linear_deform', 'domain': [lo, hi, shape], 'interp': interp, 'values': vals,
                         'out_arg': use_out2, 'kind': 'per_axis', 'schemes': schemes, 'cvs': cvs, 'dtype': 'float64',
@@ -1014,13 +1081,19 @@ def probes(rng, tier):
                 dtype = rng.choice(['float64', 'float64', 'float32', 'complex128'])
                 shape = _probe_shape(rng, d)
                 layout = 'C' if d == 1 else rng.choice(LAYOUTS[1:] + ['C'])
-                cvs = [gen_cvec(rng, n) for n in shape]
+                near = rng.choice(NEAR_KINDS) if (dtype != 'float32' and rng.random() < 0.4) else None
+                if near:
+                    cvs = [gen_cvec_near(rng, n, *near) for n in shape]
+                    coord = lambda c: gen_coord_near(rng, c, near[0])[0]
+                else:
+                    cvs = [gen_cvec(rng, n) for n in shape]
+                    coord = lambda c: gen_coord(rng, c)[0]
                 schemes = [rng.choice(['nearest', 'linear']) for _ in range(d)]
                 eff = {'nearest': ['nearest'] * d, 'linear': ['linear'] * d, 'per_axis': schemes}[kind]
-                pts = [[gen_coord(rng, c)[0] for c in cvs] for _ in range(npts)]
-                mesh = [sorted(set(gen_coord(rng, c)[0] for _ in range(rng.randint(2, 3)))) for c in cvs]
+                pts = [[coord(c) for c in cvs] for _ in range(npts)]
+                mesh = [sorted(set(coord(c) for _ in range(rng.randint(2, 3)))) for c in cvs]
                 if len(mesh[0]) == 1 and d > 1:
-                    mesh[0].append(mesh[0][0] + 0.125)
+                    mesh[0].append(mesh[0][0] + 0.125 * (cvs[0][1] - cvs[0][0]))
                 snip = REF + LAYOUT_SRC + (
                     'cvs = %r\nf = relayout(%s, %r)\nschemes = %r\nitp = make(%r, schemes, f, cvs)\npts = %r\nmesh = %r\n'
                     'OUT_LAYOUT = %r\n'
@@ -1039,8 +1112,9 @@ def probes(rng, tier):
                          % (d, d, d))
                 _probe(out, 'textbook-%s-d%d' % (kind if kind != 'per_axis' else 'peraxis', d),
                        '%s %s (%s, %d-d, %s memory layout): closest node (right on ties) / multilinear blend / one-cell '
-                       'decay outside, identical for single points, point arrays, mesh grids and out='
-                       % (kind, eff, dtype, d, layout), snip)
+                       'decay outside, identical for single points, point arrays, mesh grids and out=%s'
+                       % (kind, eff, dtype, d, layout,
+                          '; almost-uniform / rescaled nodes (eps, scale) = %r' % (near,) if near else ''), snip)
 
     # ---- 3. linear interpolation is exact for affine functions inside the hull
     for _ in range(3 * reps):
